@@ -681,10 +681,7 @@ class OrderedRingBuffer(Generic[FloatArray]):
             The count of samples between the oldest and newest (inclusive) valid samples
                 or 0 if there are is no time range covered.
         """
-        return int(
-            self._covered_time_range().total_seconds()
-            // self._sampling_period.total_seconds()
-        )
+        return self._covered_time_range() // self._sampling_period
 
     def count_valid(self) -> int:
         """Count the number of valid items that this buffer currently holds.
